@@ -10,7 +10,7 @@ DECIDES = ('history independence of linalg/_linalg: no function mutates a parame
            'result is a function of the arguments alone, for all interleavings of calls; matrix_pivot swaps the permutation and '
            'the matrix with the same index pairs over full rows inside the same guard (PV1); every consumer of a pivoted matrix '
            'also consumes its permutation or sign (PV2) and lu_factor applies P - not its transpose - to the right-hand side (PV3); single-expression identities in polynomial normal form: cross product, '
-           'binomial coefficient, is_left, element-wise vector maps, dot product as accumulated product (AL*); the LU factorisation, pivoting and triangular solves compare no matrix entry with a non-zero literal: they are scale-free (SC1).')
+           'binomial coefficient, is_left, element-wise vector maps, dot product as accumulated product (AL*); the LU factorisation, pivoting and triangular solves compare no matrix entry with a non-zero literal: they are scale-free (SC1); the degenerate-interval test of linspace compares the absolute difference of its ends with its threshold, so decreasing sequences are generated like increasing ones (TOL1).')
 NOT_DECIDED = ('A x = b, A A^-1 = I, Leibniz determinant for arbitrary matrices, solvability for diagonally dominant / collocation '
                'matrices, floating-point accuracy (e.g. factorial quotients), loop-based helpers other than the accumulator idiom.')
 
@@ -133,6 +133,9 @@ def pv2(m, run, piv=None):
 
 def check(m, run):
     sc1(m, run)
+    from . import c09
+    c09.tol_two_sided(m, run, [m.func('linalg.linspace'), m.func('linalg.vector_is_zero'), m.func('linalg.point_mid')] if 'linalg.point_mid' in m.funcs else [m.func('linalg.linspace')])
+    run.floor('TOL1.two-sided-tolerance', 1, 'degenerate-interval test of linspace')
     P = Purity(m)
     funcs = [fi for mod in MODS for fi in m.functions_in(mod) if fi.kind == 'function']
     if len(funcs) < 30:
